@@ -262,11 +262,28 @@ def _compare(r, case, m, qkind, base, spec, cutoff, fk, extra_branches=()):
         br.append("single-point-not-nominal")
     if ref["nqual"] == 0:
         br.append("zero-point")
+    if ref["verdict_mismatch"]:
+        r.fail("%s: at %d mesh point(s) a monodisperse evaluation reports a total weight that contradicts the model's "
+               "own validity clause %r (an invalid point must contribute nothing - neither F^2 nor volume nor weight)"
+               % (desc, ref["verdict_mismatch"], info.valid), dict(fk, clause="validity-verdict"), branches=br)
+        return
     try:
         impl = call_kernel(k_impl, pars, cutoff=cutoff)
     except Exception as exc:  # noqa
         r.fail("%s: call_kernel raised %r" % (desc, exc), dict(fk, clause="raises"), branches=br,
                trans=ref["npoints"])
+        return
+    # the same request on a kernel that has already served another request (non-initial state)
+    try:
+        k_used = m.make_kernel(_q(qkind))
+        call_kernel(k_used, dict(_defaults(info), scale=0.5, background=3.0), cutoff=0.0)
+        impl2 = call_kernel(k_used, pars, cutoff=cutoff)
+    except Exception as exc:  # noqa
+        r.fail("%s: call_kernel on a previously used kernel raised %r" % (desc, exc), dict(fk, clause="raises"), branches=br)
+        return
+    if np.asarray(impl2).tobytes() != np.asarray(impl).tobytes():
+        r.fail("%s: a kernel that served another request before returns %s, a fresh kernel %s" % (desc, impl2, impl),
+               dict(fk, clause="used-kernel"), branches=br)
         return
     ok, err = refmodel.close(impl, ref["I"], ref["mag"], rtol=1e-11)
     nominal = refmodel.raw_point(k_ref, dict(base, scale=1.0, background=0.0))
